@@ -210,6 +210,7 @@ func (r *reader) Clone(sr *io.SectionReader) (metadata.Reader, error) {
 		db:           r.db,
 		fsID:         r.fsID,
 		rootID:       r.rootID,
+		tocDigest:    r.tocDigest,
 		sr:           sr,
 		initG:        new(errgroup.Group),
 		decompressor: r.decompressor,
